@@ -1,4 +1,4 @@
-use super::swift_utils::{parse_bic, parse_max_length, parse_swift_chars};
+use super::swift_utils::{ensure_ascii, parse_bic, parse_max_length, parse_swift_chars};
 use crate::errors::ParseError;
 use crate::traits::SwiftField;
 use serde::{Deserialize, Serialize};
@@ -25,6 +25,7 @@ impl SwiftField for Field25NoOption {
     where
         Self: Sized,
     {
+        ensure_ascii(input, "Field 25")?;
         // Strip leading slash delimiter (MT format) - JSON should not contain delimiters
         let input_stripped = input.strip_prefix('/').unwrap_or(input);
 
@@ -62,6 +63,7 @@ impl SwiftField for Field25A {
     where
         Self: Sized,
     {
+        ensure_ascii(input, "Field 25")?;
         // Must start with slash
         if !input.starts_with('/') {
             return Err(ParseError::InvalidFormat {
@@ -123,6 +125,7 @@ impl SwiftField for Field25P {
     where
         Self: Sized,
     {
+        ensure_ascii(input, "Field 25")?;
         // Field25P has account on first line and BIC on second
         let lines: Vec<&str> = input.split('\n').collect();
 
@@ -201,6 +204,7 @@ impl SwiftField for Field25AccountIdentification {
     where
         Self: Sized,
     {
+        ensure_ascii(input, "Field 25")?;
         // Try to determine variant based on content
         // If it contains a newline or looks like it has a BIC at the end, it's Option P
         if input.contains('\n')
